@@ -16,7 +16,9 @@ func init() {
 	refs := []refCheck{
 		{"C09", "pypi", "C09Pair", "pypi Compare agrees with the PEP 440 total order (packaging.version._cmpkey)", "Go transliteration of packaging.version._cmpkey, validated at dev time against packaging 26.3 on 5000 generated pairs (0 mismatches)",
 			func(tier string) []string {
-				return []string{"{d}.{d}.dev{d}", "{d}.{d}a{d}.dev{d}", "{d}.{d}.post{d}.dev{d}", "{d}.{d}+{n}.{n}", "{d}.{d}+{d}", "{d}.{d}.0", "{d}.0.0", "{d}!{d}.{d}rc{d}", "{d}.{d}a{d}.post{d}", "{d}.{d}{d}", "{d}.{d}c{d}", "{d}.{d}+{l}{l}-{d}"}
+				return []string{"{d}.{d}.dev{d}", "{d}.{d}a{d}.dev{d}", "{d}.{d}.post{d}.dev{d}", "{d}.{d}+{n}.{n}", "{d}.{d}+{d}", "{d}.{d}.0", "{d}.0.0", "{d}!{d}.{d}rc{d}", "{d}.{d}a{d}.post{d}", "{d}.{d}{d}", "{d}.{d}c{d}", "{d}.{d}+{l}{l}-{d}",
+					// zero-led numbers of three digits (decimal, never octal) in every numeric position
+					"{d}.0{d}{d}", "{d}.{d}{d}{d}", "{d}.{d}a0{d}{d}", "{d}.{d}.post0{d}{d}", "{d}.{d}.dev0{d}{d}", "0{d}{d}!{d}.{d}", "{d}{d}!{d}.{d}"}
 			}},
 		{"C10", "debian", "C10Pair", "debian Compare gives the same sign as dpkg --compare-versions", "Go transliteration of dpkg's order()/verrevcmp()/parseversion, validated at dev time against /usr/bin/dpkg on 4000 random valid pairs (0 mismatches)",
 			func(tier string) []string {
@@ -45,7 +47,7 @@ func init() {
 		{"C12", "maven", "C12Pair", "maven Compare gives the same sign as Maven 3.8 ComparableVersion on conventionally shaped versions", "Go transliteration of ComparableVersion (parseVersion, aliases, qualifier ranks, normalize, compareTo), validated at dev time against maven-artifact 3.8.7 on 1500 generated conventional pairs (0 mismatches)",
 			func(tier string) []string {
 				return []string{"{d}", "{d}.{d}", "{d}.{d}.{d}", "{d}.{d}.{d}.{d}", "{d}.0", "{d}.0.0", "{d}-{d}", "{d}.{d}-{d}", "{d}-{a}{a}", "{d}-{a}{a}{a}", "{d}.{a}{a}{a}{a}{a}", "{d}-{a}{a}{a}{a}", "{d}-{a}{a}{a}{a}{a}", "{d}-{a}{a}{a}{a}{a}{a}{a}{a}", "{d}-{a}{a}{a}{a}{a}{a}{a}{a}{a}",
-					"{d}-{a}{a}{d}", "{d}-{a}{a}-{d}", "{d}-{a}{a}.{d}", "{d}.{d}-{a}{d}", "{d}-{a}{a}{a}{a}{d}", "{d}-{a}{a}{a}{a}{a}-{d}", "{d}.{d}.{a}{a}{a}{a}{a}{a}{a}", "0{d}.{d}", "{d}-{a}{a}{a}{d}"}
+					"{d}-{a}{a}{d}", "{d}-{a}{a}-{d}", "{d}-{a}{a}.{d}", "{d}.{d}-{a}{d}", "{d}-{a}{a}{a}{a}{d}", "{d}-{a}{a}{a}{a}{a}-{d}", "{d}.{d}.{a}{a}{a}{a}{a}{a}{a}", "0{d}.{d}", "{d}-{a}{a}{a}{d}", "{d}.0{d}{d}", "{d}.{d}{d}{d}", "{d}-{a}{a}0{d}{d}"}
 			}},
 		{"C13", "gem", "C13Pair", "gem Compare gives the same sign as Gem::Version#<=>", "Go transliteration of Gem::Version canonical_segments and <=>, validated at dev time on 21 rows in the style of rubygems' test_gem_version.rb (0 mismatches); no ruby exists in this image",
 			func(tier string) []string {
@@ -53,7 +55,9 @@ func init() {
 					"{d}.{d}.{l}{d}", "{d}.{d}-{l}{l}.{d}", "{d}.{d}.{l}{l}{l}{l}.{l}", "{d}.{d}.{d}.{l}{l}{l}", "{d}.{d}-{d}", "{d}.0.{l}{l}{d}", "{d}{d}.{d}", "{d}.{d}.pre", "{d}.{d}.pre.{l}",
 					"{d}.{d}.{l}{d}.{l}", "{d}.{l}{d}.{l}{d}", "{d}.{d}.{l}{d}.{l}{l}{d}",
 					// two hyphens, hyphen next to dots
-					"{d}.{d}-{l}-{l}", "{d}.{d}-{l}{l}-{l}{d}", "{d}.{d}-{l}.{l}", "{d}.{d}.{l}-{l}"}
+					"{d}.{d}-{l}-{l}", "{d}.{d}-{l}{l}-{l}{d}", "{d}.{d}-{l}.{l}", "{d}.{d}.{l}-{l}",
+					// zero-led three-digit numbers
+					"{d}.0{d}{d}", "{d}.{d}{d}{d}", "{d}.{d}.{l}0{d}{d}"}
 			}},
 		{"C14", "alpine", "C14Pair", "alpine Compare gives the same sign as apk-tools on well-formed versions with equal component counts and no leading zeros", "Go transliteration of the rule list (numeric components, letter, suffix ranks with numbers, extra pre/post suffix, -rN), validated at dev time on the 288 well-formed rows of apk-tools' own version.data shipped in the repository (0 mismatches)",
 			func(tier string) []string {
